@@ -311,8 +311,16 @@ fn map_err(e: EVMError<revm_database::bal::EvmDatabaseError<DbErr>>) -> EVMError
     }
 }
 
+/// Rendering used for error comparison. The reference runs on `revm_database::State`, whose error
+/// type wraps the backing database's error in `EvmDatabaseError` (Display: "Database error: ..");
+/// grevm's databases return the backing error itself. `map_err` removes the wrapper from
+/// `EVMError::Database`; a precompile that reports a facade fault *stringifies* it into
+/// `EVMError::Custom`, so the wrapper's prefix is removed from that text as well (both sides).
 pub fn err_string(e: &EVMError<DbErr>) -> String {
-    format!("{e:?}")
+    match e {
+        EVMError::Custom(s) => format!("{:?}", EVMError::<DbErr>::Custom(s.replace("Database error: db fault:", "db fault:"))),
+        _ => format!("{e:?}"),
+    }
 }
 
 /// Run the block one transaction at a time with stock revm on `revm_database::State`, skipping
